@@ -44,7 +44,7 @@ COMPONENTS = {
              "io.TextIOWrapper/BufferedWriter/BufferedReader/StringIO", "codecs"],
     "stub": ["SimFS/SimRaw (short reads and writes)"],
 }
-PROBES_REQUIRED = ["skip-initial-space-false-explicit", "cell-is-only-the-quote-char", "escape-char-last-in-cell", "crlf-inside-cell-with-small-chunks",
+PROBES_REQUIRED = ["via-validating-writer-and-reader", "skip-initial-space-false-explicit", "cell-is-only-the-quote-char", "escape-char-last-in-cell", "crlf-inside-cell-with-small-chunks",
                    "single-empty-cell-row", "config-refused", "delimiter-in-cell", "line-break-in-cell", "target:path",
                    "source:path", "non-ascii-cell"]
 
@@ -88,7 +88,13 @@ def generate(seed, tier):
     rng = core.stream(seed, "gen")
     swarm = core.stream(seed, "swarm")
     config = list(swarm.choice(CONFIGS))
-    return {"io": simfs.IoConfig.draw(swarm), "config": config, "table": draw_table(rng, config),
+    table = draw_table(rng, config)
+    via = swarm.choice(["rowio", "rowio", "validio"])
+    if via == "validio" and table:
+        # through a CID: every row needs as many items as the CID has (Text) fields
+        width = max(len(row) for row in table)
+        table = [row + ["x"] * (width - len(row)) for row in table]
+    return {"io": simfs.IoConfig.draw(swarm), "config": config, "table": table, "via": via,
             "explicit_skip": swarm.random() < 0.5,
             "target": swarm.choice(["stream", "path"]), "source": swarm.choice(["stream", "path"])}
 
@@ -126,6 +132,51 @@ def round_trip(data_format, table, fs, target, source):
     else:
         reader_source = fs.text_stream("out.csv", encoding="utf-8", newline="")
     status, value = lib.call(lambda: [list(row) for row in rowio.delimited_rows(reader_source, data_format)])
+    return ("ok" if status == "ok" else "read-exc"), value
+
+
+def cid_for(config, width, explicit_skip):
+    """The same configuration spelled as a CID with ``width`` Text fields (loaded by the real Cid)."""
+    delimiter, quote, escape, quoting, line_delimiter = config[:5]
+    rows = [["d", "format", "delimited"], ["d", "encoding", "utf-8"], ["d", "item delimiter", str(ord(delimiter))],
+            ["d", "quote character", quote], ["d", "escape character", escape], ["d", "quoting", quoting],
+            ["d", "line delimiter", line_delimiter]]
+    if explicit_skip:
+        rows.append(["d", "skip initial space", "false"])
+    rows += [["f", "c%d" % index, "", "X", "", "Text", ""] for index in range(width)]
+    return lib.call(lib.load_cid, rows)
+
+
+def round_trip_validio(cid, table, fs, target, source):
+    """Write through cutplace.Writer and read back through cutplace.rows under the same Cid."""
+    import cutplace
+
+    if target == "path":
+        actual_target = "out.csv"
+    else:
+        actual_target = io.StringIO(newline="")
+
+    def write():
+        writer = cutplace.Writer(cid, actual_target)
+        try:
+            for row in table:
+                writer.write_row(list(row))
+        finally:
+            writer.close()
+
+    status, value = lib.call(write)
+    if status == "exc":
+        return "write-exc", value
+    if target != "path":
+        text = actual_target.getvalue()
+        if source == "path":
+            fs.store("out.csv", text.encode("utf-8"))
+            reader_source = "out.csv"
+        else:
+            reader_source = io.StringIO(text, newline="")
+    else:
+        reader_source = "out.csv" if source == "path" else fs.text_stream("out.csv", encoding="utf-8", newline="")
+    status, value = lib.call(lambda: [list(row) for row in cutplace.rows(cid, reader_source)])
     return ("ok" if status == "ok" else "read-exc"), value
 
 
@@ -225,7 +276,15 @@ def execute(scenario):
             result.digest = history.digest()
             result.schedule_sig = ["refused", config]
             return result
-        status, value = round_trip(data_format, table, fs, scenario["target"], scenario["source"])
+        via = scenario.get("via", "rowio")
+        if via == "validio" and table:
+            cid_status, cid = cid_for(config, len(table[0]), scenario.get("explicit_skip", False))
+            if cid_status == "exc":
+                raise core.Violation("loader-accepts-format-but-cid-does-not", _features(config, table), repr(cid))
+            status, value = round_trip_validio(cid, table, fs, scenario["target"], scenario["source"])
+            result.probe("via-validating-writer-and-reader")
+        else:
+            status, value = round_trip(data_format, table, fs, scenario["target"], scenario["source"])
     history.add("client", "round-trip", {"status": status, "value": value if status == "ok" else lib.error_summary(value)})
     delimiter, quote, escape, quoting, line_delimiter = config
     specials = set()
@@ -274,6 +333,8 @@ def candidates(scenario):
         yield candidate
     if scenario.get("explicit_skip"):
         yield lib.with_value(scenario, ["explicit_skip"], False)
+    if scenario.get("via") == "validio":
+        yield lib.with_value(scenario, ["via"], "rowio")
     for key in ("target", "source"):
         if scenario[key] != "stream":
             yield lib.with_value(scenario, [key], "stream")
